@@ -80,6 +80,8 @@ func CFFamilies(tier string) []*FamilySpec {
 		corpus = append(corpus, l)
 	}
 	lists = append(lists, closeUnderReductions(gen.CFAll, corpus)...)
+	// added as they are (not closed under reduction: that would multiply the quick corpus by four)
+	lists = append(lists, jumpContextCorpus(tier)...)
 	return []*FamilySpec{genFamily("CF", gen.CFAll, lists), HandFamily("pool", "pool.go.txt")}
 }
 
@@ -209,4 +211,68 @@ func C07(tier string) *core.Report {
 	commonAssumptions(r)
 	r.Assume("the unoptimised stage still carries the go-co API import, which the compiler reports as unused; those import lines are removed before building it (nothing else is touched)")
 	return r
+}
+
+// jumpContextCorpus: a break / continue / return placed under every non-loop compound (and under
+// switch-in-if / if-in-switch), optionally after a yield, inside every loop form — the shapes in
+// which the compiler has to decide whether a jump stays native, which statement it is bound to, and
+// whether the loop's post statement still runs.
+func jumpContextCorpus(tier string) []gen.List {
+	y, e := &gen.Stmt{K: "Y"}, &gen.Stmt{K: "E"}
+	loops := []string{"ForPostY", "ForInf"}
+	pres := []gen.List{{}, {y}}
+	if tier == "thorough" {
+		loops = []string{"ForPostY", "While", "ForInf", "For3", "ForPostE", "ForNoCond", "ForInitY"}
+		pres = []gen.List{{}, {y}, {e}}
+	}
+	// wrappers: kind and which child receives the jump (others get [E])
+	type wrap struct {
+		k   string
+		n   int
+		pos int
+	}
+	wraps := []wrap{{"If", 1, 0}, {"IfElse", 2, 0}, {"IfElse", 2, 1}, {"IfElif", 2, 1}, {"IfInit", 1, 0}, {"Sw1", 1, 0}, {"Sw2", 2, 0}, {"Sw2", 2, 1},
+		{"Sw3", 3, 1}, {"SwNoTag", 2, 0}, {"SwNoTag", 2, 1}, {"TySw", 2, 0}, {"TySwBind", 2, 1}, {"SwInitE", 1, 0}, {"Block", 1, 0}}
+	mk := func(w wrap, inner gen.List) *gen.Stmt {
+		st := &gen.Stmt{K: w.k}
+		for i := 0; i < w.n; i++ {
+			if i == w.pos {
+				st.Ch = append(st.Ch, inner)
+			} else {
+				st.Ch = append(st.Ch, gen.List{e})
+			}
+		}
+		return st
+	}
+	var out []gen.List
+	add := func(loop string, body gen.List) {
+		l := gen.List{{K: loop, Ch: [][]*gen.Stmt{body}}, e}
+		if gen.CFAll.WellFormed(l) {
+			out = append(out, l)
+		}
+	}
+	for _, loop := range loops {
+		for _, j := range []string{"Co", "Br", "Rt"} {
+			for _, pre := range pres {
+				inner := append(append(gen.List{}, pre...), &gen.Stmt{K: j})
+				for _, w := range wraps {
+					add(loop, gen.List{mk(w, inner), y})
+				}
+			}
+		}
+	}
+	// two levels: if inside switch, switch inside if
+	sw := []wrap{{"Sw2", 2, 0}, {"SwNoTag", 2, 1}, {"TySw", 2, 0}}
+	ifs := []wrap{{"If", 1, 0}, {"IfElse", 2, 1}}
+	for _, loop := range loops {
+		for _, j := range []string{"Co", "Br"} {
+			for _, a := range sw {
+				for _, b := range ifs {
+					add(loop, gen.List{mk(a, gen.List{mk(b, gen.List{{K: j}})}), y})
+					add(loop, gen.List{mk(b, gen.List{mk(a, gen.List{y, {K: j}})}), y})
+				}
+			}
+		}
+	}
+	return out
 }
